@@ -1,11 +1,27 @@
-(* C01 - running a program yields exactly what its source text denotes. Property theorems only (definitional semantics in spec/Sem.v; fragments and observation relations in spec/Fragment*.v; proofs in proofs/CompileCorrectA.v ... I.v). FULL STATEMENT (compile_correct): forall p, wf_prog p -> forall fuel r, sem_program orc fuel p = r -> r <> SemFuel -> exists budget, obs_eq (run_program orc bc budget) r. PROVED so far (hence `_partial`): fragment F3 = scalar and function values: integer/boolean literals, all 13 binary and both prefix operators, variables in nested block scopes (slot reuse), assignment, blocks, als / anders als / anders as statement and value, zolang with stop / volgende, FUNCTIONS: named and anonymous literals, parameters, locals, calls (arguments left to right, then the callee), antwoord from any depth, recursion, functions stored in variables / passed / returned, and the fused local-constant instructions (compile_correct_F3; F2 = the same without functions, F1 without control flow). Run-time events excluded by the theorem's disjunct `hits_excluded` (a property of the machine run): a call beyond the 16-bit stack / frame limits (4.3 item 5) and ==/!= on two function values (4.3 item 14). ALSO PROVED: fragment F2h = F2 + HEAP VALUES + BUILTINS at top level (compile_correct_F2h): float / string / array literals, operators on floats and strings, indexing and index assignment on arrays and strings (aliasing, negative indices, errors), all seven builtins with the printed OUTPUT, result compared as a value GRAPH under a location correspondence after the collector is dropped; hypotheses: lits_exact (no two IEEE-equal but distinct float literals such as 0.0 and -0.0 - only a hand-built tree can contain -0.0 as a literal), sem_small (heap below 2^60 objects). What remains for the full statement is the COMBINATION of functions with heap values (the collector then runs during the program). Outside the proved fragments the statement is carried per program by the correspondence of Compiler.v/VM.v with the implementation AND the evaluation of Sem.v on the same tree inside Coq. *)
+(* C01 - running a program yields exactly what its source text denotes. Property theorems only (definitional semantics in spec/Sem.v; fragments and observation relations in spec/Fragment*.v; proofs in proofs/CompileCorrectA.v ... J10.v). MAIN THEOREM compile_correct (= compile_correct_F4): for EVERY program of the language outside the documented exclusions of DESIGN.md 4.3 - the boolean predicate in_F4 of spec/Fragment4.v: literals, all operators, variables in nested scopes, assignment, blocks, als / anders als / anders, zolang with stop / volgende, named and anonymous FUNCTIONS, recursion, first-class functions, ARRAYS, STRINGS, FLOATS, indexing and index assignment, the seven BUILTINS with their printed output - the machine, running the compiled bytecode WITH its collector (a collection at every function return), yields exactly the value GRAPH (under a location correspondence), the OUTPUT and the ERROR KIND (raised after the same output) that the definitional semantics assigns to the tree. Hypotheses, each an exclusion of 4.3: ends_expr (item 1), lits_exact (no two IEEE-equal but different float literals such as 0.0 and -0.0: only a hand-built tree has them, the parser never produces a signed literal), sem_small (fewer than 2^60 objects, item 5), and the disjunct hits_excluded4 = the run hits one of three run-time events: the 16-bit stack / frame limits (item 5), == on two function values (item 14), a call with more arguments than parameters (item 4). Fuel of Sem.v: any amount that suffices (sem_fuel_mono: more never changes the result). The earlier fragment theorems are kept: F3 (no heap), F2h (no functions; unconditional apart from lits_exact / sem_small), F2 (scalars: unconditional), F1. What ties the theorem to the Rust code is the correspondence: byte-identical bytecode and step-exact runs of Compiler.v / VM.v against the implementation, and Sem.v evaluated on the same trees. *)
 From NL.Model Require Import Pipeline.
-From NL.Spec Require Import Sem Fragment Fragment2 Fragment2h Fragment3.
-From NL.Proofs Require CompileCorrectA CompileCorrectB CompileCorrectC CompileCorrectD CompileCorrectI CompileCorrectH5.
+From NL.Spec Require Import Sem Fragment Fragment2 Fragment2h Fragment3 Fragment4.
+From NL.Proofs Require CompileCorrectA CompileCorrectB CompileCorrectC CompileCorrectD CompileCorrectI CompileCorrectH5 CompileCorrectJ8 CompileCorrectJ9 CompileCorrectJ10 SessionRefineF.
 Open Scope Z_scope.
 
+(* compiler correctness for the whole language outside the exclusions of DESIGN 4.3 (functions AND heap values AND builtins; the collector runs during the program): value graph, output and error kind agree with the definitional semantics, unless the run hits one of the three excluded run-time events *)
+Theorem compile_correct : forall (orc : oracle) (p : block), in_F4 p = true -> ends_expr p = true -> lits_exact (lits_b p) -> forall bc : bytecode, compile p = Ok bc -> forall fuel : nat, (size3_b p <= fuel)%nat -> sem_program orc fuel p <> SemFuel -> sem_small orc fuel p (length (b_constants bc)) -> (exists budget : nat, obs_eq4 (run_program orc bc budget) (sem_program orc fuel p)) \/ hits_excluded4 (CompileCorrectJ5.fun_table p) orc bc.
+Proof. exact CompileCorrectJ9.compile_correct_F4. Qed.
+
+(* every program the compiler accepts passes the semantics' static pass *)
+Theorem static_accepts_F4 : forall (p : block) (bc : bytecode) (fuel : nat), in_F4 p = true -> compile p = Ok bc -> (size3_b p <= fuel)%nat -> static_check fuel p = None.
+Proof. exact CompileCorrectJ8.static_accepts_F4. Qed.
+
+(* the printed text is exactly, in order, what the semantics prints *)
+Theorem print_output_order_F4 : forall (orc : oracle) (p : block), in_F4 p = true -> ends_expr p = true -> lits_exact (lits_b p) -> forall bc : bytecode, compile p = Ok bc -> forall fuel : nat, (size3_b p <= fuel)%nat -> sem_program orc fuel p <> SemFuel -> sem_small orc fuel p (length (b_constants bc)) -> (exists budget : nat, CompileCorrectH5.sem_out (sem_program orc fuel p) = Some (o_out (run_program orc bc budget))) \/ hits_excluded4 (CompileCorrectJ5.fun_table p) orc bc.
+Proof. exact CompileCorrectJ10.print_output_order_F4. Qed.
+
+(* the semantics is monotone in its fuel: `fuel large enough` is well defined *)
+Theorem sem_fuel_mono : forall (orc : oracle) (n : nat), (forall (n' : nat) (c : dctx) (e : expr) (st : sstate), (n <= n')%nat -> eval_expr orc n c e st <> RFuel -> eval_expr orc n' c e st = eval_expr orc n c e st) /\ (forall (n' iter iter' : nat) (c : dctx) (cnd : expr) (body : list stmt) (last : val) (st : sstate), (n <= n')%nat -> eval_while orc n iter c cnd body last st <> RFuel -> eval_while orc n' iter' c cnd body last st = eval_while orc n iter c cnd body last st) /\ (forall (n' : nat) (c : dctx) (b : list stmt) (last : val) (st : sstate), (n <= n')%nat -> exec_block orc n c b last st <> RFuel -> exec_block orc n' c b last st = exec_block orc n c b last st).
+Proof. exact SessionRefineF.sem_fuel_mono. Qed.
+
 (* compiler correctness on fragment F3 (F2 + functions, calls, recursion, first-class functions, fused instructions): what the machine computes from the compiled bytecode is what the definitional semantics assigns to the tree, unless the run hits one of the two excluded run-time events *)
-Theorem compile_correct_partial : forall (orc : oracle) (p : block), in_F3 p = true -> ends_expr p = true -> forall bc : bytecode, compile p = Ok bc -> forall fuel : nat, (size3_b p <= fuel)%nat -> sem_program orc fuel p <> SemFuel -> (forall out : text, sem_program orc fuel p <> SemError EArgumentError out) -> (exists budget : nat, obs_eq3 (run_program orc bc budget) (sem_program orc fuel p)) \/ hits_excluded orc bc.
+Theorem compile_correct_F3 : forall (orc : oracle) (p : block), in_F3 p = true -> ends_expr p = true -> forall bc : bytecode, compile p = Ok bc -> forall fuel : nat, (size3_b p <= fuel)%nat -> sem_program orc fuel p <> SemFuel -> (forall out : text, sem_program orc fuel p <> SemError EArgumentError out) -> (exists budget : nat, obs_eq3 (run_program orc bc budget) (sem_program orc fuel p)) \/ hits_excluded orc bc.
 Proof. exact CompileCorrectI.compile_correct_F3. Qed.
 
 (* every F3 program the compiler accepts passes the semantics' static pass *)
@@ -49,7 +65,11 @@ Theorem static_reject_F1 : forall p : block, in_F1 p = true -> forall fuel : nat
 Proof. exact CompileCorrectB.static_reject_F1. Qed.
 
 
-Print Assumptions compile_correct_partial.
+Print Assumptions compile_correct.
+Print Assumptions static_accepts_F4.
+Print Assumptions print_output_order_F4.
+Print Assumptions sem_fuel_mono.
+Print Assumptions compile_correct_F3.
 Print Assumptions static_accepts_F3.
 Print Assumptions compile_correct_F2h.
 Print Assumptions static_accepts_F2h.
